@@ -22,14 +22,16 @@ import numpy as np
 from .. import core, sxvm
 
 LEVEL = "exploration"
-RULE = ("constants (F_max,l,Cm,Ct) in {(4,1,1,1),(20,1/4,2/125,1/117000),(1,3,1/2,2),(10,1/10,1/2,1)}; (a) target motor forces in {-F/4,0,F/4,F/2,F,5F/4}^4 mapped through the vehicle "
-        "geometry G (1296 per constant set, all exact ties included); (b) T in {-5,0,1/1000,F,2F,4F-eps,4F,10F,1e6} x M in {0,+-eps,+-F l/4,+-M_max,+-1e6}^3. "
+RULE = ("constants (F_max,l,Cm,Ct) in {(4,1,1,1),(20,1/4,2/125,1/117000),(1,3,1/2,2),(10,1/10,1/2,1),(2,1e-8,1e-7,1e-9),(1000,50,200,1e4)}; (a) target motor forces in {-F/4,0,F/4,F/2,F,5F/4}^4 mapped through the vehicle "
+        "geometry G (1296 per constant set, all exact ties included); (b) T in {-5,0,1/1000,F,2F,4F-eps,4F,10F,1e6,1e18 F,-1e18} x M in {0,+-eps,+-F l/4,+-M_max,+-1e6,+-1e18 M_max}^3. "
         "non-trivial = non-zero moment demand; distinct by exact input tuple")
 ASSUMPTIONS = ["vehicle geometry G: motor sign pattern (-,-,-),(+,+,-),(+,-,+),(-,+,+) of roll, pitch, yaw-reaction moments as in the shipped quadrotor model",
                "exact rational arithmetic (Fraction) on the real instruction list; omega judged in double"]
 SIGNS = [(-1, -1, -1), (1, 1, -1), (1, -1, 1), (-1, 1, 1)]
 CONSTS = [(Fr(4), Fr(1), Fr(1), Fr(1)), (Fr(20), Fr(1, 4), Fr(2, 125), Fr(1, 117000)), (Fr(1), Fr(3), Fr(1, 2), Fr(2)),
-          (Fr(10), Fr(1, 10), Fr(1, 2), Fr(1))]  # last: yaw-dominant geometry (Cm > l)
+          (Fr(10), Fr(1, 10), Fr(1, 2), Fr(1)),  # yaw-dominant geometry (Cm > l)
+          (Fr(2), Fr(1, 10 ** 8), Fr(1, 10 ** 7), Fr(1, 10 ** 9)),  # constants many orders of magnitude below 1
+          (Fr(1000), Fr(50), Fr(200), Fr(10 ** 4))]  # ... and above
 
 _F = {}
 
@@ -141,7 +143,14 @@ def judge(res, consts, T, M, case, how):
     Fpd = np.array(r[1], dtype=float).reshape(-1)
     if not np.all(np.isfinite(om)) or np.any(om < 0) or np.max(np.abs(om ** 2 * float(Ct) - Fpd)) > 1e-12 * float(F_max) * 4:
         res.fail(site="control_allocation", clause="motor_speed_finite_nonnegative_consistent", cls="-", detail=dict(info, omega=om, Fp=Fpd), sub=case["sub"], case=case)
-    if np.max(np.abs(Fpd - np.array([float(x) for x in Fp]))) > 1e-9 * float(F_max):
+    # where the property fixes the value (demand or moment achievable) the map is continuous and the double evaluation must follow the
+    # exact one; elsewhere (moment not achievable: the scaling has jumps, a rounding in the last place may pick the other side) only the
+    # range is promised
+    pinned = (mn >= 0 and mx <= F_max) or (max(Fmom) - min(Fmom) <= F_max)
+    if not pinned:
+        if not np.all(np.isfinite(Fpd)) or np.any(Fpd < 0) or np.any(Fpd > float(F_max)):
+            res.fail(site="control_allocation", clause="motor_force_within_0_Fmax", cls="double", detail=dict(info, Fp_double=Fpd), sub=case["sub"], case=case)
+    elif np.max(np.abs(Fpd - np.array([float(x) for x in Fp]))) > 1e-9 * float(F_max):
         res.fail(site="control_allocation", clause="double_matches_exact", cls="-", detail=dict(info, Fp_double=Fpd, Fp_exact=sFp), sub=case["sub"], case=case)
     return sig
 
@@ -166,9 +175,9 @@ def explore_cube(case):
     consts = CONSTS[ci]
     F_max, l, Cm, Ct = consts
     eps = Fr(1, 2 ** 40)
-    Ts = [Fr(-5), Fr(0), Fr(1, 1000), F_max, 2 * F_max, 4 * F_max - eps, 4 * F_max, 10 * F_max, Fr(10 ** 6)]
+    Ts = [Fr(-5), Fr(0), Fr(1, 1000), F_max, 2 * F_max, 4 * F_max - eps, 4 * F_max, 10 * F_max, Fr(10 ** 6), Fr(10 ** 18) * F_max, Fr(-10 ** 18)]
     M_max = l * 4 * F_max / 2
-    ms = [Fr(0), eps, -eps, F_max * l / 4, -F_max * l / 4, M_max, -M_max, Fr(10 ** 6), Fr(-10 ** 6)]
+    ms = [Fr(0), eps, -eps, F_max * l / 4, -F_max * l / 4, M_max, -M_max, Fr(10 ** 6), Fr(-10 ** 6), Fr(10 ** 18) * M_max, Fr(-10 ** 18) * M_max]
     T = Ts[ti]
     for M in itertools.product(ms, repeat=3):
         judge(res, consts, T, M, case, "cube")
@@ -190,7 +199,7 @@ class _C:
     chunks = 1
 
     def cases(self, tier, seed):
-        return [dict(sub="cube", consts=c, ti=t) for c in range(len(CONSTS)) for t in range(9)]
+        return [dict(sub="cube", consts=c, ti=t) for c in range(len(CONSTS)) for t in range(11)]
 
     def run(self, case):
         return explore_cube(case)
